@@ -16,3 +16,9 @@ claim("C05", "property-based round-trip testing of event streams (Hypothesis gra
       "(thorough), oracle = EmitterError or clean return.",
       "Trusted: Hypothesis, the equivalence in vlib/gen_events.py. Known findings excluded by case predicates: libyaml folding inside more-indented lines; libyaml "
       "dropping an empty implicit first document.")
+claim("C06", "differential testing of the two back-ends on grammar-generated portable documents and on dumper/emitter outputs (Hypothesis), with expected events known by construction",
+      "Generated search: documents rendered from an abstract portable-subset grammar (expected events known by construction) and texts produced by both dumpers/emitters; "
+      "events, node graphs and objects of Base/Safe/Full/Unsafe loader pairs must agree between back-ends (and with the expectation); the four named malformed classes must "
+      "raise the same exception class on both sides.",
+      "Trusted: Hypothesis, the renderer in vlib/gen_docs.py (validated against both back-ends), vlib/compare.py. The non-specific tag '!' is a listed known finding and texts "
+      "containing it are compared at event level only.")
